@@ -25,6 +25,9 @@ CLAIMS = {
  "C07": ("Theorems: lookup_insert_self / lookup_insert_other / bindings_last_write_wins (the binding table is a function update), ident_step (a name step is exactly the documented case split), ident_unbound_to_name_stack, ident_bound_pushes_exec, use_bound_literal (two steps put the value back on its stack), quoted_name_goes_to_name_stack (exactly the next name, bound or not, flag cleared), quote_survives_literal / quote_survives_list, define_meets_spec + define_binds + define_then_lookup for the eight DEFINE instructions, code_definition_returns_binding. Correspondence: name-dense programs single-stepped, DEFINE/QUOTE/DEFINITION by NAME.",
          "The HashMap is modelled as a sorted association list with unique keys (iteration order is never observed by these instructions).",
          "Lean 4 proof (function-update view of bindings, step equations) + executed step-by-step correspondence"),
+ "C08": ("Theorems over every code tree (mutual structural induction, no bound): points_length (SIZE = number of points), extract_index_lt (the normalised index is always inside the tree), trav_eq_points / extract_eq_points (EXTRACT at i yields the i-th point in depth-first order), ins_trav (INSERT at 1 <= i < size then EXTRACT at i yields the inserted item), ins_err / ins_out_of_range, position_spec via pos_sound / pos_none (POSITION returns an index at which EXTRACT finds an equal item, the first such index, and -1 exactly when no point matches), code_size_counts_points; negation k02_insert_out_of_range_violates. Correspondence: 19 CODE instructions by NAME on tree-rich states with operands drawn as points of the top item; points-based statements and the INSERT->EXTRACT relation evaluated on the implementation's outcome.",
+         "Item::insert and Item::contains are modelled in their repaired form (fix commits in /repo). K02 (out-of-range INSERT) is pinned by a unit test: KNOWN-FINDING. SUBST / CONTAINER / DISCREPANCY / CONS / NTH are tied by correspondence and by points-based statements in the driver; their algebraic theorems are not all proved yet.",
+         "Lean 4 proof by mutual structural induction over code trees + executed correspondence on tree-rich states"),
  "C16": ("Refinement proof: every public PushStack method (Layer 0: Vec, top at the end, size-(i+1) index arithmetic that can panic) never panics and commutes with abs=reverse to the plain-sequence operation (Layer 1), for all element types, stacks and arguments (24 theorems). Correspondence: random and exhaustive operation sequences on the real PushStack<Item>.",
          "swap(i,j) (raw Vec indices) is outside the property. Vec::remove/insert/split_off/index panics are modelled, not verified.",
          "Lean 4 refinement proof (Vec model -> plain sequence) + executed model/implementation correspondence"),
